@@ -10,6 +10,8 @@ From TarsV Require Import Base.Hex Gen.Consts Select.Selectors Select.Hist Selec
 From TarsV Require Xlate.BSWLEquiv.
 From TarsV Require Xlate.SelectEquiv.
 From TarsV Require Xlate.SWRREquiv.
+From TarsV Require Xlate.ChWeightEquiv.
+From TarsV Require Import Gen.SelRebuild Select.RebuildEquiv.
 Import ListNotations.
 
 (* members only: after any history, for any oracle values, a selection that succeeds returns an endpoint of the current set *)
@@ -81,3 +83,69 @@ Theorem C13_weighted_cycle : forall points h maxw minw,
      Permutation (snd (run points RoundRobin true s (selects crs))) (map (fun j => RSel (nth j l dummy)) c)).
 Proof. exact RingProofs.weighted_cycle_after. Qed.
 Print Assumptions C13_weighted_cycle.
+
+(* the state of every selector after any history at selector level (Refresh / Add / Remove / Select, any order, any oracle
+   values): the member list IS the abstract set of the history, and the weight table is the one BuildStaticWeightList gives
+   for that list - recomputed from scratch at every change, empty when weights are off or the list has no cycle: no table of
+   an earlier set survives *)
+Theorem C13_list_is_set : forall points k weighted h, eps (state_after points k weighted h) = set_of_history h.
+Proof. exact SelProofs.state_after_eps. Qed.
+Print Assumptions C13_list_is_set.
+Theorem C13_cycle_of_current_set : forall points k weighted h,
+  cache (state_after points k weighted h) = cyc k weighted (set_of_history h).
+Proof. exact SelProofs.state_after_cache. Qed.
+Print Assumptions C13_cycle_of_current_set.
+(* ... every index of that table is a position of the current list, and every owner in the ring is a current member *)
+Theorem C13_state_wellformed : forall points k weighted h, wf (state_after points k weighted h).
+Proof. exact SelProofs.state_after_wf. Qed.
+Print Assumptions C13_state_wellformed.
+
+(* random: a draw r selects slot r mod L of the list (L = n) resp. of the weight cycle (L = its length) ... *)
+Theorem C13_random_slot : forall points weighted h code rnd, set_of_history h <> [] ->
+  let l := set_of_history h in let c := cyc Random weighted l in
+  snd (select Random (state_after points Random weighted h) code rnd) =
+  RSel (slot_of c l (N.modulo rnd (N.of_nat (match c with [] => length l | _ => length c end)))).
+Proof. exact RingProofs.random_slot. Qed.
+Print Assumptions C13_random_slot.
+(* ... so the L equally likely draws hit every endpoint exactly once, resp. endpoint i exactly as often as the cycle contains
+   it (C13_swrr_counts: max 1 (W_i*R/W_max) times): the selection probability is proportional to the prescribed count *)
+Theorem C13_random_proportional : forall points weighted h code, set_of_history h <> [] ->
+  let l := set_of_history h in let c := cyc Random weighted l in
+  map (fun r => snd (select Random (state_after points Random weighted h) code (N.of_nat r)))
+      (seq 0 (match c with [] => length l | _ => length c end)) = image_of c l.
+Proof. exact RingProofs.random_draws. Qed.
+Print Assumptions C13_random_proportional.
+
+(* mod-hash: any L consecutive hash codes (not wrapping 2^32) are a rearrangement of the list resp. of the weight cycle *)
+Theorem C13_modhash_proportional : forall points weighted h (p : N), set_of_history h <> [] ->
+  let l := set_of_history h in let c := cyc ModHash weighted l in let L := match c with [] => length l | _ => length c end in
+  (p + N.of_nat L < two32)%N ->
+  Permutation (map (fun i => snd (select ModHash (state_after points ModHash weighted h) (p + N.of_nat i) 0)) (seq 1 L)) (image_of c l).
+Proof. exact RingProofs.modhash_window. Qed.
+Print Assumptions C13_modhash_proportional.
+
+(* consistent hash: the number of rounds of virtual nodes a member gets, as computed by the CURRENT source of
+   ConsistentHash.weight (Gen/Translated.v, regenerated on every run), is the model's ch_rounds for every int32 weight *)
+Theorem C13_conhash_rounds_from_source : forall (w : Z) (weighted : bool), (- 2 ^ 31 <= w < 2 ^ 31)%Z ->
+  exists r, Gen.Translated.tr_ch_weight w weighted (Z.of_N c_ConHashVirtualNodes) = Xlate.GoSem.Return r /\ Z.to_nat r = ch_rounds weighted w /\
+            ((0 < r)%Z <-> (0 < (if weighted then w else Z.of_N c_ConHashVirtualNodes))%Z).
+Proof. exact Xlate.ChWeightEquiv.tr_ch_weight_equiv. Qed.
+Print Assumptions C13_conhash_rounds_from_source.
+
+(* the rebuild step (after every Refresh / Add / Remove) as the CURRENT source of roundrobin / random / modhash reBuildLocked
+   has it (Gen/SelRebuild.v, regenerated on every run) is the model's rebuild: table dropped and recomputed from the new list
+   alone, round-robin cursors re-drawn within the new lengths *)
+Theorem C13_rebuild_from_source_rr : forall weighted l r1 r2 s0, exists s', rebuild RoundRobin weighted l r1 r2 = Ok s' /\ eps s' = l /\
+  gen_rr_reBuild weighted (length l) (cycle_of_list l) (draws r1 r2) s0 = rb_of s'.
+Proof. exact RebuildEquiv.gen_rr_reBuild_model. Qed.
+Print Assumptions C13_rebuild_from_source_rr.
+Theorem C13_rebuild_from_source_modhash : forall weighted l r1 r2 d s0, exists s', rebuild ModHash weighted l r1 r2 = Ok s' /\ eps s' = l /\
+  rb_cache (gen_mh_reBuild weighted (length l) (cycle_of_list l) d s0) = cache s' /\
+  rb_pos (gen_mh_reBuild weighted (length l) (cycle_of_list l) d s0) = rb_pos s0 /\ rb_wpos (gen_mh_reBuild weighted (length l) (cycle_of_list l) d s0) = rb_wpos s0.
+Proof. exact RebuildEquiv.gen_mh_reBuild_model. Qed.
+Print Assumptions C13_rebuild_from_source_modhash.
+Theorem C13_rebuild_from_source_random : forall weighted l r1 r2 d s0, exists s', rebuild Random weighted l r1 r2 = Ok s' /\ eps s' = l /\
+  rb_cache (gen_rnd_reBuild weighted (length l) (cycle_of_list l) d s0) = cache s' /\
+  rb_pos (gen_rnd_reBuild weighted (length l) (cycle_of_list l) d s0) = rb_pos s0 /\ rb_wpos (gen_rnd_reBuild weighted (length l) (cycle_of_list l) d s0) = rb_wpos s0.
+Proof. exact RebuildEquiv.gen_rnd_reBuild_model. Qed.
+Print Assumptions C13_rebuild_from_source_random.
